@@ -675,6 +675,123 @@ def gen_backtracking(repo):
             'Definition gen_bt_assert (fx fval : T) : bool := %s.' % asrt, '']
 
 
+DR = dict(file='odl/solvers/nonsmooth/douglas_rachford.py', fn='douglas_rachford_pd',
+          operators={'L[i]': ('(bA V W b)', 'V', 'W')},
+          factories={'f.proximal': ('proxF', 'V', 'V'), 'prox_cc_g': ('(bproxGc V W b)', 'W', 'W')},
+          slists={'sigma': '(bsigma V W b)'}, vlists={'v': 'W', 'p2': 'W', 'w2': 'W'}, index='i',
+          scalars=['tau', 'lam_k'], skip_tests=['callback is not None'], flags={'l is not None': False})
+DR_SUM1 = ['L[0].adjoint(v[0], out=z1)', 'for Li, vi in zip(L[1:], v[1:]):\n    Li.adjoint(vi, out=p1)\n    z1 += p1']
+DR_SUM2 = ['L[0].adjoint(w2[0], out=p1)', 'for Li, w2i in zip(L[1:], w2[1:]):\n    Li.adjoint(w2i, out=z1)\n    p1 += z1']
+
+
+def gen_dr(repo):
+    """douglas_rachford_pd, branch len(L) > 0, l = None.  The two accumulation idioms
+         L[0].adjoint(u[0], out=A); for Li, ui in zip(L[1:], u[1:]): Li.adjoint(ui, out=B); A += B
+       are recognised as units and mapped to sum_adj0 (left fold of + over the blocks); the loops over i become
+       per-block functions; the final-iteration branch (x.assign(p1); return) and the empty-L branches are pinned text."""
+    fn = find_fn(repo, DR['file'], DR['fn'])
+    pre, loop, tail = split_loop('douglas_rachford_pd', fn)
+    if tail or ast.unparse(loop.iter) != 'range(niter)' or ast.unparse(loop.target) != 'k':
+        raise C.TranslateError('douglas_rachford_pd: unexpected loop shape')
+    b = loop.body
+    U = ast.unparse
+    want = {0: 'lam_k = lam(k)', 6: 'if k == niter - 1:\n    x.assign(p1)\n    return'}
+    if len(b) != 13 or any(U(b[i]) != t for i, t in want.items()):
+        raise C.TranslateError('douglas_rachford_pd: loop body has an unexpected shape')
+    for i, idiom, els in ((1, DR_SUM1, 'z1.assign(x)'), (8, DR_SUM2, 'p1.set_zero()')):
+        st = b[i]
+        if not (isinstance(st, ast.If) and U(st.test) == 'len(L) > 0' and [U(t) for t in st.body[:2]] == idiom
+                and [U(t) for t in st.orelse] == [els]):
+            raise C.TranslateError('douglas_rachford_pd: accumulation of the adjoints has an unexpected shape (statement %d)' % i)
+    for i in (7, 12):
+        if not (isinstance(b[i], ast.For) and U(b[i].iter) == 'range(m)' and U(b[i].target) == 'i'):
+            raise C.TranslateError('douglas_rachford_pd: expected `for i in range(m)`')
+
+    def fresh_main():
+        sx = SX('douglas_rachford_pd', DR)
+        param(sx, 'x', 'V', state=True)
+        for nm in ('z1', 'p1', 'w1'):
+            sx.env[nm] = ('vec', sx.new_obj(None, 'V'))
+        return sx
+    # ---- first half: p1 (what the callback sees and the final iteration returns)
+    sx = fresh_main()
+    sx.write(b[1], sx.env['z1'][1], '(sum_adj0 V W addV scalV bs vs x)', 'z1')
+    sx.val[sx.env['p1'][1]] = (None, 'V')
+    sx.stmts(b[1].body[2:])
+    sx.stmt(b[2])
+    p1_only = emit(sx, sx.val[sx.env['p1'][1]][0])
+    sx.stmts(b[3:6])
+    # ---- per-block: p2[i], w2[i]
+    sb = SX('douglas_rachford_pd', DR)
+    param(sb, 'w1', 'V')
+    sb.nobj += 1
+    sb.val[sb.nobj] = ('v', 'W')
+    sb.env['v[i]'] = ('vec', sb.nobj)
+    sb.readonly.add(sb.nobj)
+    sb.env['p2[i]'] = ('vec', sb.new_obj(None, 'W'))
+    sb.env['w2[i]'] = ('vec', sb.new_obj(None, 'W'))
+    lb = b[7].body
+    if len(lb) != 4:
+        raise C.TranslateError('douglas_rachford_pd: first block loop has %d statements' % len(lb))
+    sb.stmts(lb[:3])
+    blk_p2 = emit(sb, sb.val[sb.env['p2[i]'][1]][0])
+    sc = SX('douglas_rachford_pd', DR)
+    for nm, pn in (('p2[i]', 'p'), ('v[i]', 'v')):
+        sc.nobj += 1
+        sc.val[sc.nobj] = (pn, 'W')
+        sc.env[nm] = ('vec', sc.nobj)
+        sc.readonly.add(sc.nobj)
+    sc.env['w2[i]'] = ('vec', sc.new_obj(None, 'W'))
+    sc.stmt(lb[3])
+    blk_w2 = emit(sc, sc.val[sc.env['w2[i]'][1]][0])
+    sx.lines.append('let p2 := map2 (fun b v => gen_dr_blk_p2 b %s v) bs vs in' % sx.val[sx.env['w1'][1]][0])
+    sx.lines.append('let w2 := map2 (fun p v => gen_dr_blk_w2 p v) p2 vs in')
+    # ---- second accumulation and the primal updates
+    sx.write(b[8], sx.env['p1'][1], '(sum_adj0 V W addV scalV bs w2 x)', 'p1')
+    sx.val[sx.env['z1'][1]] = (None, 'V')
+    sx.stmts(b[9:12])
+    # ---- per-block: z2, then the two updates of v[i]
+    lc = b[12].body
+    shape = [U(lc[0]), U(lc[1]), type(lc[2]).__name__, U(lc[3].test) if isinstance(lc[3], ast.If) else '?',
+             type(lc[4]).__name__, type(lc[5]).__name__] if len(lc) == 6 else []
+    if shape != ['z2i = z2[L[i].range]', 'L[i](p1, out=z2i)', 'Expr', 'l is not None', 'Expr', 'Expr']:
+        raise C.TranslateError('douglas_rachford_pd: second block loop has an unexpected shape: %s' % shape)
+    sd = SX('douglas_rachford_pd', DR)
+    param(sd, 'p1', 'V')
+    sd.nobj += 1
+    sd.val[sd.nobj] = ('w', 'W')
+    sd.env['w2[i]'] = ('vec', sd.nobj)
+    sd.readonly.add(sd.nobj)
+    sd.env['z2i'] = ('vec', sd.new_obj(None, 'W'))      # z2[L[i].range]: a buffer, overwritten before it is read
+    sd.stmts(lc[1:4])
+    blk_z2 = emit(sd, sd.val[sd.env['z2i'][1]][0])
+    outs = []
+    for st, (a, bb) in ((lc[4], ('v', 'z')), (lc[5], ('vz', 'p'))):
+        se = SX('douglas_rachford_pd', DR)
+        se.nobj += 1
+        se.val[se.nobj] = (a, 'W')
+        se.env['v[i]'] = ('vec', se.nobj)
+        other = 'z2i' if bb == 'z' else 'p2[i]'
+        se.nobj += 1
+        se.val[se.nobj] = (bb, 'W')
+        se.env[other] = ('vec', se.nobj)
+        se.readonly.add(se.nobj)
+        se.stmt(st)
+        outs.append(emit(se, se.val[se.env['v[i]'][1]][0]))
+    q1 = sx.val[sx.env['p1'][1]][0]
+    xf = sx.val[sx.env['x'][1]][0]
+    step = emit(sx, '(%s, map2 (fun vz p => gen_dr_blk_v2 lam_k vz p)\n         (map2 (fun v z => gen_dr_blk_v1 lam_k v z) vs (map2 (fun b w => gen_dr_blk_z2 b %s w) bs w2)) p2)' % (xf, q1))
+    return ['Definition gen_dr_blk_p2 (b : @blk T V W) (w1 : V) (v : W) : W :=', blk_p2 + '.',
+            'Definition gen_dr_blk_w2 (p v : W) : W :=', blk_w2 + '.',
+            'Definition gen_dr_blk_z2 (b : @blk T V W) (p1 : V) (w : W) : W :=', blk_z2 + '.',
+            'Definition gen_dr_blk_v1 (lam_k : T) (v z : W) : W :=', outs[0] + '.',
+            'Definition gen_dr_blk_v2 (lam_k : T) (vz p : W) : W :=', outs[1] + '.',
+            'Definition gen_dr_p1 (proxF : T -> V -> V) (bs : list (@blk T V W)) (tau : T) (s : V * list W) : V :=',
+            "  let '(x, vs) := s in", p1_only + '.',
+            'Definition gen_dr_step (proxF : T -> V -> V) (bs : list (@blk T V W)) (tau lam_k : T) (s : V * list W)',
+            '    : V * list W :=', "  let '(x, vs) := s in", step + '.', '']
+
+
 def translate(repo=None):
     repo = repo or C.REPO
     out = ['(* GENERATED by translate/solvers_c12.py from the solver sources -- do not edit. *)',
@@ -692,6 +809,7 @@ def translate(repo=None):
     out += gen_power(repo)
     out += gen_fb(repo)
     out += gen_backtracking(repo)
+    out += gen_dr(repo)
     out.append('End Gen.')
     return '\n'.join(out) + '\n'
 
